@@ -508,6 +508,63 @@ pub fn extract_packed_b<const NR: usize>(b: &[u8]) -> (&[u8], &PackedBMeta<NR>) 
     (packed_elements, PackedBMeta::from_bytes(meta_bytes))
 }
 
+/// Return the LHS zero points to use for an output tile.
+///
+/// `packed` are the zero points recorded in the packed panel's metadata. These
+/// are zero if the panel was packed without quantization parameters, as is the
+/// case for matrices prepacked with `GemmExecutor::prepack_a`. `zero_point`
+/// are the zero points for the tile's rows that the caller passed to the GEMM
+/// call. If present, these take precedence.
+#[inline]
+pub fn tile_a_zero_points<const MR: usize>(
+    packed: [i32; MR],
+    zero_point: Option<&[u8]>,
+) -> [i32; MR] {
+    let mut zero_points = packed;
+    if let Some(zp) = zero_point {
+        for (dst, src) in zero_points.iter_mut().zip(zp) {
+            *dst = i32::from(*src);
+        }
+    }
+    zero_points
+}
+
+/// Return the RHS zero points to use for an output tile.
+///
+/// This is the counterpart of [`tile_a_zero_points`] for panels packed with
+/// [`pack_b`].
+#[allow(unused)]
+#[inline]
+pub fn tile_b_zero_points<const NR: usize>(
+    packed: [i32; NR],
+    zero_point: Option<&[i8]>,
+) -> [i32; NR] {
+    let mut zero_points = packed;
+    if let Some(zp) = zero_point {
+        for (dst, src) in zero_points.iter_mut().zip(zp) {
+            *dst = i32::from(*src);
+        }
+    }
+    zero_points
+}
+
+/// Variant of [`tile_b_zero_points`] for panels packed with
+/// [`pack_b_cast_i8_u8`], where values and zero points are shifted to `u8`.
+#[allow(unused)]
+#[inline]
+pub fn tile_b_zero_points_cast_u8<const NR: usize>(
+    packed: [i32; NR],
+    zero_point: Option<&[i8]>,
+) -> [i32; NR] {
+    let mut zero_points = packed;
+    if let Some(zp) = zero_point {
+        for (dst, src) in zero_points.iter_mut().zip(zp) {
+            *dst = i32::from(shift_cast_i8_u8(*src));
+        }
+    }
+    zero_points
+}
+
 #[cfg(test)]
 mod tests {
     use rten_base::byte_cast::{AsBytes, cast_slice};
